@@ -283,25 +283,40 @@ class C17(PropertyCheck):
         "QipVerif.C17.qft_gate_count",
         "QipVerif.C17.qft_indices_in_range",
         "QipVerif.C17.qft_eq_dft_le4",      # FINITE INSTANCES (N <= 4), a kernel-evaluated test, not the property
+        # general N, operator level (matrices over C on the N-qubit register)
+        "QipVerif.C17.qft_eq_dft",
+        "QipVerif.C17.qft_eq_dft_cnot",
+        "QipVerif.C17.qft_noswap_eq_dft_bitrev",
+        "QipVerif.C17.qft_circuit_den_eq_steps",
+        "QipVerif.C17.qft_cnot_den_eq_steps",
+        "QipVerif.C17.qft_steps_eq_dft",
+        "QipVerif.C17.cnot_expansion_on_register",
+        "QipVerif.C17.qft_stage_amplitudes",
+        "QipVerif.C17.dft_index_big_endian",
     ]
-    level = "partial"
+    level = "proof"
     level_text = ("Lean 4 theorems over Mathlib's complex numbers: for EVERY U in U(2) (no genericity hypothesis; diagonal, "
                   "anti-diagonal, scalar, det=-1 inputs are covered by the same proof through |z|*exp(i*arg z) = z at z = 0) "
                   "the gate tuples of methods ZYZ, ZXZ, ZYZ_PauliX, with the angles _angles_for_ZYZ computes, multiply in the "
                   "returned order to U exactly, global phase included, using only the promised gate names; the gate tuples, "
                   "the linear part of the angle extraction and the _cphase_to_cnot template are regenerated from the source "
                   "on every run.  _cphase_to_cnot(lambda) = exp(i*lambda/2)*CPHASE(lambda) for -pi < lambda <= pi (the QFT uses "
-                  "pi/2^k).  For every N and both flags the gate list of qft_gate_sequence is the concatenation of the gate "
-                  "lists of the steps of qft_steps; gate count; all indices < N.  QFT = DFT only as finite instances N <= 4 "
-                  "(kernel-evaluated, exact cyclotomic arithmetic).")
-    level_note = ("PARTIAL: 'the circuit multiplies to the DFT matrix' is NOT proved for general N (only the finite instances "
-                  "N <= 4, theorem qft_eq_dft_le4, which is a test and not the property; checked numerically by the oracle for "
-                  "N = 1..7).  The decomposition theorems are full proofs over exact reals; "
-                  "floating-point round-off (inputs within 1e-12 of a degenerate family, the branch cut of sqrt at det = -1) "
-                  "is covered by the oracle only, within 1e-9.  Trusted: Lean kernel (propext, Classical.choice, Quot.sound); "
-                  "the translator py/props/c17_translate.py; the hand transcription of the non-linear part of _angles_for_ZYZ "
-                  "(csqrt, conj, arg, arctan2) and of the gate matrices, validated every run against the real functions; "
-                  "cmath.phase/np.arctan2/np.sqrt taken as Complex.arg / arg(x+iy) / principal root.")
+                  "pi/2^k), also placed on any two qubits of any register.  For EVERY N >= 1: the gates of "
+                  "qft_gate_sequence(N, swapping=True), placed on N qubits with the embedding of C08 and multiplied in circuit "
+                  "order, equal the DFT matrix exp(2 pi i x y / 2^N)/sqrt(2^N) (big-endian indices) exactly with native "
+                  "controlled phases (qft_eq_dft) and up to the recorded global phase sum(lambda/2) with CNOT expansion "
+                  "(qft_eq_dft_cnot); without swaps: DFT with bit-reversed output; for every N and both flags the circuit and the "
+                  "product of the qft_steps operators are the same matrix (qft_circuit_den_eq_steps), as gate lists too.")
+    level_note = ("Formerly PARTIAL; now proved for every N: QFT circuit = DFT (native: exactly; CNOT expansion: up to the recorded "
+                  "global phase), circuit = step list at operator level, stage amplitudes.  qft_eq_dft_le4 remains a separately "
+                  "labelled finite-instance test (N <= 4, kernel-evaluated) and is not the property.  What is NOT a theorem: "
+                  "floating-point round-off (inputs within 1e-12 of a degenerate family, the branch cut of sqrt at det = -1; "
+                  "oracle only, 1e-9); that the Python loops of qft_gate_sequence / qft_steps produce the modelled gate lists "
+                  "(hand model Model/Qft.lean, compared exactly with the code for N <= 10 (14 thorough) on every run).  Trusted: "
+                  "Lean kernel (propext, Classical.choice, Quot.sound); the translator py/props/c17_translate.py; the hand "
+                  "transcription of the non-linear part of _angles_for_ZYZ (csqrt, conj, arg, arctan2) and of the gate matrices, "
+                  "validated every run against the real functions; cmath.phase/np.arctan2/np.sqrt taken as Complex.arg / "
+                  "arg(x+iy) / principal root; Tg.embed (C08) as the meaning of placing a gate on a register.")
     technique = ("Lean 4 proof (Mathlib: Complex.arg, exp, 2x2/4x4 matrix identities; induction over the loop structure) + "
                  "AST-regenerated tables + model/implementation correspondence")
     trusted_base = [
@@ -315,7 +330,7 @@ class C17(PropertyCheck):
         "meaning of a gate list = ordered product of the gates' matrices (property C01), GLOBALPHASE = scalar",
     ]
     assumptions = ["exact real arithmetic in the theorems; round-off is the oracle's 1e-9 band",
-                   "general-N QFT = DFT not proved (oracle N <= 7)"]
+                   "the QFT gate/step lists of Model/Qft.lean are the code's for every N (compared exactly up to N = 10/14)"]
     rule = ("cases: (a) table instantiation vs decompose_one_qubit_gate on Haar-random and degenerate U x 3 methods; "
             "(b) float model of the angle extraction vs _angles_for_ZYZ on the same inputs; (c) gate-matrix samples; "
             "(d) _cphase_to_cnot template on QFT angles and random angles in (-pi,pi]; (e) QFT gate/step lists N=1..10 x flags "
